@@ -1328,3 +1328,70 @@ def _r16_6_core(ctx, repo, rule):
         ctx.ok(rule, repo.loc(fn, cls, fn.name), construct,
                'noise realisations are drawn with one row per initial point',
                engine=ENG)
+
+
+# -----------------------------------------------------------------------------
+# R02.9 — normalisation of documented inputs keeps their layout
+# -----------------------------------------------------------------------------
+N_SAMPLES_ = sym('n_samples')
+
+NORMALISE_SITES = [
+    # (class, method, input name, documented axes, field that stores it,
+    #  axes the stored value must have)
+    ('HierarchicalLogLikelihood', '__init__', 'covariates',
+     ('n_ids', 'n_cov'), 'self._covariates', ('n_ids', 'n_cov')),
+    ('PopulationFilterLogPosterior', '__init__', 'covariates',
+     ('n_samples', 'n_cov'), 'self._covariates', ('n_samples', 'n_cov')),
+]
+
+
+def r02_9(ctx, repo):
+    """A constructor that normalises a documented 2-D input (reshape /
+    transpose / broadcast) stores it with the documented axes: element
+    (i, c) stays the covariate c of individual i."""
+    rule = 'R02.9'
+    syms = {'n_ids': N_IDS, 'n_cov': N_COV, 'n_samples': N_SAMPLES_}
+
+    class L(ShapeLifter):
+        def _call(self, n, env, fn, depth, owner):
+            f = U(n.func)
+            if f.endswith('.n_covariates'):
+                return N_COV
+            return super()._call(n, env, fn, depth, owner)
+    for cls, m, arg, axes, field, want in NORMALISE_SITES:
+        fn = repo.method(cls, m)
+        construct = '%s.%s' % (cls, m)
+        lf = L(repo, cls, flags={
+            'population_model.n_covariates() > 0': True,
+            'self._population_model.n_covariates() > 0': True,
+            '%s is None' % arg: False})
+        env = {arg: Arr([Ax(syms[a]) for a in axes]),
+               'log_likelihoods': Arr([Ax(N_IDS)], is_list=True),
+               'n_samples': N_SAMPLES_, 'self._n_samples': N_SAMPLES_}
+        try:
+            lf._block(fn.body, env, fn, 0, cls)
+        except Exception as e:
+            ctx.error(rule, '%s: %s' % (construct, e))
+            continue
+        bad = _emit_events(ctx, rule, repo, cls, fn, lf, construct)
+        val = env.get(field)
+        where = repo.loc(fn, cls, m)
+        if bad:
+            continue
+        if isinstance(val, Arr) and val.ndim == len(want) and all(
+                nest_eq(a.nest, ((w, syms[w]),))
+                for a, w in zip(val.axes, want)):
+            ctx.ok(rule, where, construct,
+                   '`%s` of documented shape (%s) is stored as (%s)' % (
+                       arg, ', '.join(axes), ', '.join(want)), engine=ENG)
+        elif isinstance(val, Arr):
+            ctx.violation(
+                rule, where, construct, 'stored layout ' + arg,
+                '`%s` is documented as (%s) but stored with axes (%s): '
+                'entry (i, c) is no longer covariate c of individual i' % (
+                    arg, ', '.join(axes), ', '.join(
+                        nest_str(a.nest) for a in val.axes)), engine=ENG)
+        else:
+            ctx.error(rule, '%s: stored value of `%s` not derived' % (
+                construct, arg))
+    ctx.floor(rule, 2)
